@@ -336,9 +336,13 @@ class Conversation:
             return
         op = self.cur_ops[k]
         n = len(op.c)
-        xs = [v for v in prob.variables() if v.size == n and v.ndim == 1]
-        if n == 1:
-            xs = [v for v in prob.variables() if v.size == 1][:1]
+        if getattr(self, "cur_target", "value") == "robust":
+            # the auxiliary 'minimum DCF' variable is the one the objective consists of; x is the other one
+            aux = prob.objective.variables()
+            xs = [v for v in prob.variables() if not any(v is q for q in aux)]
+        else:
+            xs = list(prob.variables())
+        xs = [v for v in xs if v.size == n]
         others = [v for v in prob.variables() if not any(v is q for q in xs)]
         if len(xs) != 1:
             self.viol("request-shape", "expected one variable vector of length %d in the request, found %s"
